@@ -30,8 +30,9 @@ structure Obs where
   /-- number of `readHandshake` calls the case made (datagram stack) -/
   hsCalls : Nat := 1
   /-- number of consecutive records that neither advance the handshake nor deliver data (empty
-  application data, warning alerts) the peer sent before the record that the call could deliver,
-  where the library documents a limit for them -/
+  application data, warning alerts, handshake records once the handshake is over — there is no
+  renegotiation) the peer sent before the record that the call could deliver, where the library
+  documents a limit for them -/
   uselessRun : Nat := 0
   /-- growth of the goroutine stacks of the process while the call ran -/
   stackGrowth : Nat := 0
